@@ -42,7 +42,11 @@ ASSUMPTIONS = [
     "DNSExceptions)",
     "dns.edns.option_from_wire raises ValueError by design when called directly; options are fuzzed "
     "through OPT RDATA and messages",
-    "$GENERATE ranges are capped by construction (a huge legal range is slow, not a hang)",
+    "$GENERATE ranges are capped by construction (a huge legal range or modifier width is slow or "
+    "memory-hungry in proportion to what it asks for, not a hang)",
+    "the builtin ValueError/KeyError that the statement allows for zone-semantic violations is accepted "
+    "only when raised by the zone/transaction layer (non-origin SOA, wrong class, CNAME and other "
+    "data); from the reading of a token it is a violation",
 ]
 
 
